@@ -18,6 +18,8 @@ struct CaseOpt {
 	int variant = 0;          // 0 = zero residue run, 1 = the other run: steps that craft a datagram-specific continuation use it only in run 1
 	Transcript *tr = nullptr;
 	int inst_filter = -1;     // instance whose behaviour is recorded (-1: all real programs)
+	bool perturb = false;     // differential runs: harmless datagrams whose CONTENT differs between the two runs are interleaved (history perturbation)
+	sim::Addr perturb_addr;   // their source; what is exchanged with it is not part of the compared transcript
 };
 inline void apply_residue(const CaseOpt &o)
 {
@@ -40,11 +42,12 @@ inline void record(const CaseOpt &o)
 	if (!o.tr) return;
 	Transcript *tr = o.tr;
 	auto ps = sim::W.on_send;
-	sim::W.on_send = [tr, ps](const sim::Datagram &dg) { if (ps) ps(dg); if (dg.from_inst >= 0) tr->add("send inst" + std::to_string(dg.from_inst) + " -> " + dg.dst.str() + " " + hz::hexs(dg.data, 70000)); };
+	bool pt = o.perturb; sim::Addr pa = o.perturb_addr;
+	sim::W.on_send = [tr, ps, pt, pa](const sim::Datagram &dg) { if (ps) ps(dg); if (pt && dg.dst == pa) return; if (dg.from_inst >= 0) tr->add("send inst" + std::to_string(dg.from_inst) + " -> " + dg.dst.str() + " " + hz::hexs(dg.data, 70000)); };
 	auto pw = sim::W.on_tun_write;
 	sim::W.on_tun_write = [tr, pw](sim::Instance *i, const hz::Bytes &b) { if (pw) pw(i, b); tr->add("tunwrite inst" + std::to_string(i->idx) + " " + hz::hexs(b, 70000)); };
 	auto prc = sim::W.on_recv;
-	sim::W.on_recv = [tr, prc](const sim::Datagram &dg, sim::Instance *i) { if (prc) prc(dg, i); tr->add("recv inst" + std::to_string(i->idx) + " " + std::to_string(dg.data.size()) + "B " + hz::hexs(dg.data, 300)); };
+	sim::W.on_recv = [tr, prc, pt, pa](const sim::Datagram &dg, sim::Instance *i) { if (prc) prc(dg, i); if (pt && dg.src == pa) return; tr->add("recv inst" + std::to_string(i->idx) + " " + std::to_string(dg.data.size()) + "B " + hz::hexs(dg.data, 300)); };
 	auto pr = sim::W.on_tun_read;
 	sim::W.on_tun_read = [tr, pr](sim::Instance *i, const hz::Bytes &b) { if (pr) pr(i, b); tr->add("tunread inst" + std::to_string(i->idx) + " " + std::to_string(b.size()) + " bytes"); };
 	auto py = sim::W.on_system;
